@@ -84,7 +84,7 @@ CLAIMS = {
          "DESIGN.md section 5, C09"),
  'C13': ("Hypothesis-generated pairs of typed patterned tensors (equal by construction, singly perturbed, random, shape-mismatched, self-vs-permutation) and MultiTensors vs. torch.equal/torch.allclose on independently interpreted dense twins",
          "For pairs whose supports overlap fully, partially or not at all, with defaults visible or covered, equal/allclose (both argument orders, tolerances in "
-         "{0,1e-8,.05,.5}^2, equal_nan) must return exactly what torch.equal/torch.allclose return on the dense tensors; a NaN-free tensor must equal its clone, "
+         "{0,1e-8,.05,.5,2}^2, equal_nan) must return exactly what torch.equal/torch.allclose return on the dense tensors; a NaN-free tensor must equal its clone, "
          "densification, freshened/detached copy, itself and its double transpose; square tensors are also compared with their own transposes (shared axes); "
          "equal_default/allclose_default and MultiTensor.allclose (absent block = zero, either side) are judged the same way. Sampled; outcomes ~50% True.",
          "Trusted: vf/gen_pattern.py interpreter, torch.equal/allclose as the definition of (approximate) equality, Hypothesis.",
